@@ -25,7 +25,7 @@ def _cp(s):
 
 
 def corpus():
-    cs = []
+    cs = [{"kind": "twin", "n": 6}]
     for X, k in [(["abab", "a", ""], 10), (["ab", "ab", "a"], 10), (["abababab abab", "abab"], 1),
                  (["abababab abab", "abab"], 2), (["aaaaaaa", "aaa"], 10), (["abc", "abd"], 10),
                  (["a", "b"], 10), (["abc"], 10), (["aa"], 10), (["aaa"], 1)]:
@@ -74,6 +74,8 @@ def search(rng, tier):
 # ------------------------------------------------------------------ implementation side (worker)
 
 def run_impl(case):
+    if case["kind"] == "twin":
+        return {"twin": True}
     import numpy as np, numba
     from vectorizers.mixed_gram_vectorizer import (BytePairEncodingVectorizer, contract_pair,
                                                    contract_and_count_pairs)
@@ -146,8 +148,13 @@ def _rows(M):
 
 def model_requests(case, outs):
     o = outs["normal"]
+    if case["kind"] == "twin":
+        return [{"op": "twin.bpe_exhaustive", "n": case["n"]}]
     if case["kind"] == "kernel":
-        return [{"op": "bpe.contract", "a": case["a"], "p": case["p"], "c": case["c"]}]
+        return [{"op": "bpe.contract", "a": case["a"], "p": case["p"], "c": case["c"]},
+                {"op": "twin.call", "fn": "contract_pair", "args": [case["a"], {"t": case["p"]}, case["c"]]},
+                {"op": "twin.call", "fn": "contract_and_count_pairs",
+                 "args": [case["a"], {"t": case["p"]}, {"d": [[{"t": [-5, -5]}, 1]]}, case["c"]]}]
     if "fit_exc" in o or "crash" in o or "transform_exc" in o:
         return []
     return [{"op": "bpe.encode", "cl": o["code_list_"], "mcc": o["mcc"],
@@ -162,7 +169,20 @@ def compare(case, outs, resps):
     r = resps[0]
     if "bad" in r:
         return [f"model rejected request: {r['bad']}"]
+    if case["kind"] == "twin":
+        if r.get("disagreements"):
+            d.append(f"regenerated twin of contract_pair disagrees with the hand model: {r['disagreements'][:2]}")
+        return d
     if case["kind"] == "kernel":
+        # regenerated twins (source -> Lean interpreter) vs the real compiled kernels: validates the translator
+        for name, tw, key in (("contract_pair", resps[1], "cp"), ("contract_and_count_pairs", resps[2], "ccp")):
+            if "bad" in tw:
+                continue                                   # twin unavailable: not a disagreement
+            got = tw.get("ok")
+            if isinstance(got, dict) and "t" in got:
+                got = got["t"][0]
+            if key in o and got != o[key]:
+                d.append(f"twin {name} {tw.get('ok', tw.get('err'))} != impl {o[key]}")
         if "ok" not in r["idx"]:
             d.append(f"model index-level contract_pair fails: {r['idx']}")
         elif r["idx"]["ok"] != r["fun"]:
@@ -205,6 +225,8 @@ def _F(key, msg):
 def oracle(case, outs):
     o = outs["normal"]
     fails = []
+    if case["kind"] == "twin":
+        return []
     if "crash" in o:
         return [_F("bpe.crash", f"process terminated: {o['crash']}")]
     if case["kind"] == "kernel":
@@ -278,6 +300,8 @@ def oracle(case, outs):
 
 def nontrivial(case, outs):
     o = outs["normal"]
+    if case["kind"] == "twin":
+        return False
     if case["kind"] == "kernel":
         a, p = case["a"], case["p"]
         return len(a) <= 1 or (len(a) >= 2 and a[-2:] == p)
@@ -289,6 +313,8 @@ def nontrivial(case, outs):
 
 def stats(case, outs):
     o = outs["normal"]
+    if case["kind"] == "twin":
+        return ["twin-exhaustive"]
     if case["kind"] == "kernel":
         return ["kernel", f"kernel.len{min(len(case['a']), 3)}"]
     t = ["fit"]
@@ -308,6 +334,8 @@ def stats(case, outs):
 
 
 def shrink_candidates(case):
+    if case["kind"] == "twin":
+        return
     if case["kind"] == "kernel":
         a = case["a"]
         for i in range(len(a)):
